@@ -19,9 +19,9 @@ func init() {
 			"closure = functions of the same package reached by statically resolved calls",
 		},
 		Rules: []RuleDef{
-			{Name: "C08-EDGES", Floor: 9, Doc: "every subtype decision reads extends, implements-of-ancestors and interface-extends edges", Run: c08Run},
-			{Name: "C08-LOOKUP", Floor: 2, Doc: "method lookup starts at the runtime class and walks the extends chain", Run: nop},
-			{Name: "C08-LIKE", Floor: 4, Doc: "like iterates all target methods, compares parameter counts, and looks up through inheritance", Run: nop},
+			{Name: "C08-EDGES", Floor: 12, Doc: "every subtype decision reads extends, implements-of-ancestors and interface-extends edges", Run: c08Run},
+			{Name: "C08-LOOKUP", Floor: 3, Doc: "method lookup starts at the runtime class and walks the extends chain", Run: nop},
+			{Name: "C08-LIKE", Floor: 5, Doc: "like iterates all target methods, compares parameter counts, and looks up through inheritance", Run: nop},
 		},
 	})
 }
@@ -136,6 +136,73 @@ func c08Run(r *Run) {
 				ifaceParents = true
 			}
 		}
+		// a negative answer only after the walk is exhausted: no `return false` inside an edge-walking loop
+		premature := ""
+		tailReturn := map[*ast.ReturnStmt]bool{}
+		for _, f := range cl {
+			finfo := e.p.TypesInfo
+			_ = finfo
+			var walkLoops func(n ast.Node, inWalk bool)
+			walkLoops = func(n ast.Node, inWalk bool) {
+				ast.Inspect(n, func(m ast.Node) bool {
+					if m == n {
+						return true
+					}
+					switch x := m.(type) {
+					case *ast.FuncLit:
+						return false
+					case *ast.ForStmt, *ast.RangeStmt:
+						var body *ast.BlockStmt
+						src := ""
+						if fs, ok := x.(*ast.ForStmt); ok {
+							body = fs.Body
+						} else {
+							rs := x.(*ast.RangeStmt)
+							body = rs.Body
+							src = exprStr(rs.X)
+						}
+						walks := strings.Contains(src, "GetExtends") || strings.Contains(src, "GetImplements")
+						ast.Inspect(body, func(k ast.Node) bool {
+							if c, ok := k.(*ast.CallExpr); ok {
+								if se, ok := ast.Unparen(c.Fun).(*ast.SelectorExpr); ok {
+									switch se.Sel.Name {
+									case "GetExtend", "GetExtends", "GetImplements":
+										walks = true
+									}
+								}
+							}
+							return true
+						})
+						// an unconditional `return false` that ends the loop body makes the loop a single pass
+						// (the recursion does the walking): it is not a premature answer
+						if n := len(body.List); n > 0 {
+							if rs, ok := body.List[n-1].(*ast.ReturnStmt); ok {
+								tailReturn[rs] = true
+							}
+						}
+						walkLoops(body, inWalk || walks)
+						return false
+					case *ast.ReturnStmt:
+						if !inWalk || tailReturn[x] || len(x.Results) == 0 || exprStr(x.Results[0]) != "false" {
+							return true
+						}
+						if len(x.Results) == 2 && exprStr(x.Results[1]) != "nil" {
+							return true // leaves with an error control
+						}
+						if premature == "" {
+							premature = r.pos(x.Pos())
+						}
+					}
+					return true
+				})
+			}
+			walkLoops(f.Body, false)
+		}
+		if premature == "" {
+			r.ok(fk+"#exhaustive-walk", fd.Pos(), "the answer 'no' is given only after the walk over the edges has ended")
+		} else {
+			r.bad(fk+"#exhaustive-walk", fd.Pos(), "a walk over hierarchy edges answers false from inside the loop ("+premature+"): the remaining parents and queued interfaces are never looked at, so a type reachable along another path is missed")
+		}
 		for _, c := range []struct {
 			key, okMsg, badMsg string
 			ok                 bool
@@ -242,8 +309,166 @@ func c08Run(r *Run) {
 		}
 	}
 
+	if fd := findFunc(npkg, "CallParentMethod", "GetValue"); fd == nil {
+		r.fail("anchor not found: node.(CallParentMethod).GetValue")
+	} else {
+		info := npkg.TypesInfo
+		// receivers of method lookups in fn: variable → true
+		lookupRecv := func(f *ast.FuncDecl) map[types.Object]bool {
+			out := map[types.Object]bool{}
+			ast.Inspect(f.Body, func(n ast.Node) bool {
+				if c, ok := n.(*ast.CallExpr); ok {
+					if se, ok := ast.Unparen(c.Fun).(*ast.SelectorExpr); ok && (se.Sel.Name == "GetMethod" || se.Sel.Name == "GetStaticMethod") {
+						if id, ok := ast.Unparen(se.X).(*ast.Ident); ok {
+							out[info.Uses[id]] = true
+						}
+					}
+				}
+				return true
+			})
+			return out
+		}
+		recvs := lookupRecv(fd)
+		declOfFn := map[types.Object]*ast.FuncDecl{}
+		for _, f := range funcDecls(npkg) {
+			declOfFn[info.Defs[f.Name]] = f
+		}
+		var selfRHS ast.Expr
+		ast.Inspect(fd.Body, func(n ast.Node) bool {
+			if as, ok := n.(*ast.AssignStmt); ok {
+				for i, l := range as.Lhs {
+					if se, ok := ast.Unparen(l).(*ast.SelectorExpr); ok && se.Sel.Name == "SelfClass" && i < len(as.Rhs) {
+						selfRHS = as.Rhs[i]
+					}
+				}
+			}
+			return true
+		})
+		key := funcKey(npkg, fd) + "#selfclass-is-defining-class"
+		good := false
+		if id, ok := ast.Unparen(selfRHS).(*ast.Ident); ok {
+			x := info.Uses[id]
+			// every assignment to x
+			n, all := 0, true
+			ast.Inspect(fd.Body, func(m ast.Node) bool {
+				as, ok := m.(*ast.AssignStmt)
+				if !ok {
+					return true
+				}
+				for i, l := range as.Lhs {
+					lid, ok := l.(*ast.Ident)
+					if !ok || (info.Defs[lid] != x && info.Uses[lid] != x) {
+						continue
+					}
+					n++
+					switch {
+					case len(as.Rhs) == len(as.Lhs):
+						rid, ok := ast.Unparen(as.Rhs[i]).(*ast.Ident)
+						if !ok || !recvs[info.Uses[rid]] {
+							all = false
+						}
+					case len(as.Rhs) == 1:
+						// from a helper: the i-th result of every return must be a lookup receiver there
+						c, ok := ast.Unparen(as.Rhs[0]).(*ast.CallExpr)
+						if !ok {
+							all = false
+							break
+						}
+						h := declOfFn[calleeOf(info, c)]
+						if h == nil {
+							all = false
+							break
+						}
+						hr := lookupRecv(h)
+						ast.Inspect(h.Body, func(k ast.Node) bool {
+							if rs, ok := k.(*ast.ReturnStmt); ok && i < len(rs.Results) {
+								if exprStr(rs.Results[i]) == "nil" {
+									return true
+								}
+								rid, ok := ast.Unparen(rs.Results[i]).(*ast.Ident)
+								if !ok || !hr[info.Uses[rid]] {
+									all = false
+								}
+							}
+							return true
+						})
+					default:
+						all = false
+					}
+				}
+				return true
+			})
+			good = n > 0 && all
+		}
+		switch {
+		case selfRHS == nil:
+			r.bad(key, fd.Pos(), "parent:: no longer records the defining class (SelfClass) in the callee's context: a parent:: inside the called method starts from the runtime class again")
+		case good:
+			r.ok(key, selfRHS.Pos(), "the callee's SelfClass is the class on which the called method was found")
+		default:
+			r.bad(key, selfRHS.Pos(), "the callee's SelfClass ("+exprStr(selfRHS)+") is not the class on which the method lookup succeeded: when an intermediate class does not define the method, a parent:: inside it resolves one level too low and runs the same method again")
+		}
+	}
+
 	// ---- LIKE ----
 	r.curRule = "C08-LIKE"
+	if fd := findFunc(npkg, "LikeExpression", "GetValue"); fd == nil {
+		r.fail("anchor not found: node.(LikeExpression).GetValue")
+	} else {
+		info := npkg.TypesInfo
+		fromCheck := map[types.Object]bool{}
+		ast.Inspect(fd.Body, func(n ast.Node) bool {
+			if as, ok := n.(*ast.AssignStmt); ok && len(as.Lhs) == 1 && len(as.Rhs) == 1 {
+				if c, ok := ast.Unparen(as.Rhs[0]).(*ast.CallExpr); ok {
+					if f, ok := calleeOf(info, c).(*types.Func); ok && (f.Name() == "checkClassStructure" || f.Name() == "checkInterfaceStructure") {
+						if id, ok := as.Lhs[0].(*ast.Ident); ok {
+							if o := info.Defs[id]; o != nil {
+								fromCheck[o] = true
+							}
+						}
+					}
+				}
+			}
+			return true
+		})
+		bad := ""
+		n := 0
+		ast.Inspect(fd.Body, func(m ast.Node) bool {
+			c, ok := m.(*ast.CallExpr)
+			if !ok || len(c.Args) != 1 {
+				return true
+			}
+			f, ok := calleeOf(info, c).(*types.Func)
+			if !ok || f.Name() != "NewBoolValue" {
+				return true
+			}
+			n++
+			arg := ast.Unparen(c.Args[0])
+			if exprStr(arg) == "false" {
+				return true
+			}
+			if id, ok := arg.(*ast.Ident); ok && fromCheck[info.Uses[id]] {
+				return true
+			}
+			if cc, ok := arg.(*ast.CallExpr); ok {
+				if g, ok := calleeOf(info, cc).(*types.Func); ok && (g.Name() == "checkClassStructure" || g.Name() == "checkInterfaceStructure") {
+					return true
+				}
+			}
+			if bad == "" {
+				bad = r.pos(c.Pos())
+			}
+			return true
+		})
+		key := funcKey(npkg, fd) + "#answers-from-structure-check"
+		if n == 0 {
+			r.fail("LikeExpression.GetValue builds no boolean answer")
+		} else if bad == "" {
+			r.ok(key, fd.Pos(), "every answer of `like` is false or the result of the structural comparison")
+		} else {
+			r.bad(key, fd.Pos(), "`like` answers with a value that is not the result of the structural comparison ("+bad+"): e.g. a nominal subtype is accepted although it re-declares a method with another parameter count")
+		}
+	}
 	for _, fn := range []string{"checkClassStructure", "checkInterfaceStructure"} {
 		fd := findFunc(npkg, "", fn)
 		if fd == nil {
